@@ -93,4 +93,14 @@ PROPS = {
              "params": {"quick": {}, "thorough": {}}},
         ],
     },
+    "C12": {
+        "technique": "bounded symbolic execution of quasiquote/qq_loop/macroexpand/is_macro_call/EVAL with the real cons/concat/vec and the real library macros: differential against an independent template substitution and macro semantics (reference interpreter) plus the relational check call == eval(macroexpand(call)) on results and effect traces; SMT (z3) decides assertions",
+        "outside": "unquote inside map literals, a splice at the top of a template, nested quasiquote, operand-less (unquote) (C04's), templates/macros beyond the bound; the library macros time, defprotocol, future",
+        "runs": [
+            {"pkg": "./c12", "harness": "Harness_quasi", "setup": "Setup",
+             "params": {"quick": {"depth": 1, "width": 2}, "thorough": {"depth": 2, "width": 2}}, "wall": {"thorough": "40m"}},
+            {"pkg": "./c12", "harness": "Harness_macro", "setup": "Setup", "params": {"quick": {}, "thorough": {}}},
+            {"pkg": "./c12", "harness": "Harness_libmacros", "setup": "Setup", "params": {"quick": {"maxops": 3}, "thorough": {"maxops": 5}}, "wall": {"thorough": "40m"}},
+        ],
+    },
 }
